@@ -180,6 +180,24 @@ impl Deserializable for Context {
         // read total number of constraints
         let num_constraints = source.read_usize()?;
 
+        // enforce the limits which Context::new() asserts; to_elements() relies on them when it
+        // reduces these values to 32 bits
+        let trace_length = trace_info.length();
+        if trace_length > u32::MAX as usize
+            || trace_length.saturating_mul(options.blowup_factor()) > u32::MAX as usize
+        {
+            return Err(DeserializationError::InvalidValue(format!(
+                "trace length {trace_length} is too big for blowup factor {}",
+                options.blowup_factor()
+            )));
+        }
+        if num_constraints == 0 || num_constraints > u32::MAX as usize {
+            return Err(DeserializationError::InvalidValue(format!(
+                "number of constraints must be between 1 and {}, but was {num_constraints}",
+                u32::MAX
+            )));
+        }
+
         Ok(Context {
             trace_info,
             field_modulus_bytes,
